@@ -20,7 +20,7 @@ func C15(r *core.Run) {
 		"(R15.2) for every persisted record type the fields read after decoding are fields that every encoding site writes, all exported and serialisable; " +
 		"(R15.3) the object hash kept in the metadata store is only ever computed from the object's bytes (the upload stream or a file of the object filesystem), never from the metadata filesystem — violated today by loadMeta's re-hash (known finding F17); " +
 		"(R08.2 = R15.4) an object is replaced only after the new content is complete — violated today by the fs backends (known findings F14); (R01.7) no persist error is dropped; " +
-		"(R15.5) each -backend option of the command passes its path flags to the matching constructor; (R15.6) an operation is acknowledged only after its metadata record was saved / its transaction committed. (R15.8) opening a backend removes nothing from its storage, and the HTTP front end keeps no per-object state of its own: entity headers of GET/HEAD come from the object the backend returned. (R01.12) error discipline in path form: no call's error reaches a return untested / not handed back, and no path that found it non-nil ends in success without passing it on or testing it further."
+		"(R15.5) each -backend option of the command passes its path flags to the matching constructor; (R15.6) an operation is acknowledged only after its metadata record was saved / its transaction committed. (R15.8) opening a backend removes nothing from its storage, and the HTTP front end keeps no per-object state of its own: entity headers of GET/HEAD come from the object the backend returned. (R01.12) error discipline in path form: no call's error reaches a return untested / not handed back, and no path that found it non-nil ends in success without passing it on or testing it further. (R02.12, shared) a delete removes the object file before its metadata record."
 	r.NotDecided = "what survives kill -9 on a real filesystem, JSON/BSON value round trips, mod-time tolerance, legacy _meta-less databases"
 	rule151(r)
 	rule152(r)
@@ -34,6 +34,8 @@ func C15(r *core.Run) {
 	rule0210(r, "C15")
 	rule0210(r, "C15")
 	rule0112(r, "C15")
+	rule0212(r)
+	rule1013(r)
 	rule0113(r)
 }
 
